@@ -171,6 +171,18 @@ class Body:
                         break
         return r
 
+    def upvar_types(self):
+        """for closures: field index of the environment -> type of the capture"""
+        r = {}
+        for d in self.j["debug"]:
+            v = d["value"]
+            if "l" in v and v["l"] == 1 and v["p"]:
+                for e in v["p"]:
+                    if e[0] == "field":
+                        r[e[1]] = e[3]
+                        break
+        return r
+
     def loc(self, bb=None, idx=None):
         """file:line of a statement/terminator (falls back to the function)"""
         try:
